@@ -2,13 +2,16 @@
 Theorems: lean/ZygoVerif/Props/C13.lean over Model/Lexer.lean + Model/Parser.lean (the code
 after fixes/C13-*.patch); tables regenerated from lexer.go/parser.go (Generated/LexTables).
 Tie: channels `lex` (complete lexer state after every rune) and `parse` (pieces + history ->
-statuses + expressions); spec column = whole-text parse on a fresh parser + Spec.Unfinished."""
+statuses + expressions); spec column = whole-text parse on a fresh parser + Spec.Unfinished.
+History clause: Model/Abandon.lean (the suspended coroutine of a failed parse, its unwinding, the
+parser call by call), Generated/ResetOrder (statement order of Parser.Reset/ResetAddNewInput),
+ops `parse h` / `parse ei` (harness/ch_parsehist.go, harness/gen_parsehist.go)."""
 import json, os
 import vcommon as V
 
 META = dict(
-    text="Lean 4 theorems (Props/C13.lean) prove for the model of the lexer and parser, for every text, every cutting of it into pieces (any number, empty pieces, cuts inside tokens/strings/comments/operators) and every earlier history of the parser, that the final status and the expression list equal those of the text delivered whole to a fresh parser (parse_chunks_eq_whole, reset_forgets via a simulation proved for EVERY parser program over the two input-reading instructions), that feeding the lexer in two parts is feeding the concatenation (lex_chunk), and that end of input never drops a pending atom or line comment (last_token_kept). The model is tied to zygo/lexer.go and zygo/parser.go by regenerated tables (regexp sources, enums, EscapeChar, every Lexer field is assigned in Reset) and by differential testing of the complete lexer state after every rune and of parse results at every cut position. Unit tests pause the parser at two hand-picked places; the theorem covers all of them.",
-    note="Trusted: Lean kernel; axioms propext/Classical.choice/Quot.sound; the hand-written model (tied by the lex/parse correspondence = testing, and by table theorems); regexp recognisers are hand-written for the regenerated source strings; strconv.ParseFloat is re-implemented exactly and compared bit for bit. `more iff unfinished` is stated in full (MoreIffUnfinished) but only checked on generated inputs (impl vs Spec.Unfinished), not proved. A trailing top-level `-`/`+` is an unfinished PREFIX (the next token may be Inf; chunk independence forces the wait) but a finished text (fix C13-02: lone_sign_fixed, sign_at_end_of_finished_input).",
+    text="Lean 4 theorems (Props/C13.lean) prove for the model of the lexer and parser, for every text, every cutting of it into pieces (any number, empty pieces, cuts inside tokens/strings/comments/operators) and every earlier history of the parser, that the final status and the expression list equal those of the text delivered whole to a fresh parser (parse_chunks_eq_whole, reset_forgets via a simulation proved for EVERY parser program over the two input-reading instructions), that feeding the lexer in two parts is feeding the concatenation (lex_chunk), and that end of input never drops a pending atom or line comment (last_token_kept). The model is tied to zygo/lexer.go and zygo/parser.go by regenerated tables (regexp sources, enums, EscapeChar, every Lexer field is assigned in Reset) and by differential testing of the complete lexer state after every rune and of parse results at every cut position. Unit tests pause the parser at two hand-picked places; the theorem covers all of them. HISTORY CLAUSE on the real protocol: the suspended coroutine of an unfinished parse is part of the model (Model/Abandon.lean: the parser as a state machine driven call by call — ParseTokens, NewInput, EndInput, Stop, Reset, ResetAddNewInput — keeping the rest of the program as the coroutine, and what that program does when iter.Pull's stop() makes its yield return false: the five inline wait loops return SexpEnd without an error and their callers go on reading the lexer). Proved for every parser state, every suspended program and every reset route: after the reset the lexer holds exactly the new text and nothing else survives (abandoned_parse_consumes_nothing, start_forgets, protocol_reset_forgets); the statement orders that respect 'stop the coroutine before the lexer is reset / given input and before the reply is replaced' all give that state (good_orders_agree), the other orders do not (lexer_first_counterexample, reply_first_counterexample); the order of the statements in parser.go is regenerated on every run and must be one of the good ones (reset_stops_coroutine_first, yield_cleared_after_stop). The annotated parser is the parser of the chunking theorems (annotated_parser_is_the_parser), a coroutine is kept exactly when the answer is `more` (suspended_iff_more), and the kept program resumed on further input computes what the original program computes on the concatenation (suspended_program_is_rest_of_run). The `parse h`/`parse ei` ops run the real parser/interpreter through systematically enumerated histories of unfinished, failed and complete earlier texts x every reset route and require the result of a fresh parser / a twin interpreter.",
+    note="Trusted: Lean kernel; axioms propext/Classical.choice/Quot.sound; the hand-written model (tied by the lex/parse correspondence = testing, and by table theorems); regexp recognisers are hand-written for the regenerated source strings; strconv.ParseFloat is re-implemented exactly and compared bit for bit. `more iff unfinished` is stated in full (MoreIffUnfinished) but only checked on generated inputs (impl vs Spec.Unfinished), not proved. StepwiseIsRun (call-by-call protocol = delivery model with the pieces known in advance) is stated, not proved: both are computed on every history op and must agree. The unwinding semantics of a stopped coroutine (Model/Abandon.unwind) is hand-written after parser.go and validated by the correspondence only (incl. Stop() without reset, where the dying parse reads queued input); with the statement order 'lexer first' the same model reproduces the seeded defect C13-m3 on all 106586 history ops. A trailing top-level `-`/`+` is an unfinished PREFIX (the next token may be Inf; chunk independence forces the wait) but a finished text (fix C13-02: lone_sign_fixed, sign_at_end_of_finished_input).",
     technique="Lean 4 proof over an executable lexer/parser model (free-monad parser programs, abstraction simulation) + regenerated tables + model/implementation correspondence at every cut position",
     design_ref="DESIGN.md §7 C13",
 )
@@ -27,7 +30,8 @@ def run(rep):
     rep.assumptions += [
         "Model/Lexer.lean and Model/Parser.lean are hand-written after the Go code (with fixes/C13-*.patch applied); tied by the lex and parse correspondence (differential testing) and by the table theorems of Props/C13 §6",
         "each GetNextToken that follows a successful peek is modelled as 'drop the queue head' (the queue is non-empty at those sites)",
-        "Reset with a suspended coroutine is modelled as dropping it (what the unwinding coroutine does is erased by Lexer.Reset)",
+        "the suspended coroutine of an unfinished parse is modelled explicitly (Model/Abandon: residual program, unwinding under a stopped yield, Parser.Reset/ResetAddNewInput/Stop in the statement order of parser.go); the statement order is tied by the regenerated table Generated/ResetOrder (reset_stops_coroutine_first); the unwinding semantics is compared with the real code by the `parse h` ops incl. Stop() without a reset",
+        "StepwiseIsRun (the parser driven call by call = the delivery model with the pieces known in advance) is stated, not proved; the driver computes both on every `parse h` op and reports MODELS-DISAGREE",
         "MoreIffUnfinished is stated, not proved; it is tested on every generated input",
         "inputs are sequences of Unicode scalar values (Go's ReadRune turns invalid bytes into U+FFFD before the lexer sees them)",
     ]
@@ -40,10 +44,19 @@ def run(rep):
     bs, bm = V.correspondence(rep, "lex", rows, stats, nontrivial=lambda op, impl: "!" not in impl)
     found = found or bool(bs)
     rows, stats = V.run_channel("parse", rep.seed, rep.tier)
-    bs, bm = V.correspondence(rep, "parse", rows, stats, nontrivial=lambda op, impl: "e" not in impl.split(" | ")[0])
+    def parse_nontrivial(op, impl):
+        # an op counts when the implementation did not answer with an error; a history op
+        # only when at least one earlier text was left unfinished or failed (mode `a`, or a
+        # text the interpreter could not load) — all generated history ops have one
+        if op.startswith("parse ei"):
+            return "v=err" not in impl and "got=err" not in impl
+        return "e" not in impl.split(" | ")[0]
+    bs, bm = V.correspondence(rep, "parse", rows, stats, nontrivial=parse_nontrivial)
     found = found or bool(bs)
     rep.coverage["exhaustive"] = True
     rep.coverage["rule"] = ("lex: every rune string up to length 2 over a 52-rune alphabet and up to length 3 (thorough: 4) over the 24 state-changing runes, plus grammar-directed, malformed and random texts, each optionally after a history + Reset; "
                             "parse: every text up to length 3 (thorough: 4) over a 20-rune token alphabet x every single and double cut, every pooled atom/malformed fragment alone and inside ( ) and { } x every cut, grammar-directed and malformed texts x every single cut (double cuts when short) + random multi-cuts, x histories of successful, failed and abandoned parses on the same parser; "
+                            "HISTORY (ops `parse h`): 1-3 earlier texts on the same parser — every sequence of up to 3 tokens (thorough: 4; quick: a spread sample of the length-4 ones) over ( [ { ) ] } \" a 1 /* % ~ - :, every sequence of up to 2 over a 32-token alphabet (closers of comments, raw strings, char literals, prefixes, lexical errors), every open-bracket stack of depth 1-4 over ( [ { x 8 fillings of the innermost bracket x 22 ways to stop (after the opener, after elements, after a closed nested form, inside a string / escape / raw string / char literal / block comment, after % ^ ~ ~@, a sign, a colon label, a first slash, a backslash); each with and without the end of input signalled, with and without a trailing blank, 0-2 further ParseTokens calls, optionally a queued unparsed piece — x the reset routes ResetAddNewInput / Reset+NewInput / Stop+ResetAddNewInput / Stop+Reset+NewInput x 10 texts under test whole and with one cut; required = a fresh parser on the text alone; Stop()+NewInput without reset is compared with the model only. "
+                            "INTERPRETER (ops `parse ei`): EvalString / LoadString / read / ParseFile of such texts (+Clear) on one interpreter, then EvalString of a later text; required = a twin interpreter that never saw the history; "
                             "non-trivial = the implementation did not answer with an error")
     V.proof_break_resolution(rep, found)
